@@ -38,6 +38,12 @@ DESC = {
  "C18e": "in-place convert_labels_to_integers clears the internal tables directly (needs a frozen network and in_place=True; the error is still raised)",
  "C18f": "deprecated SimplicialComplex edge aliases bound to the function objects bypass the instance-level freeze guard",
  "C19g": "in-place largest_connected_hypergraph removes only strictly smaller components (needs a tie for the largest)",
+ "C11a": "read_hif_collection loads dataset files through an lru_cache keyed on the path (needs read, rewrite the same collection, read)",
+ "C11b": "to_hypergraph_dict drops falsy network attributes (needs a network attribute that is 0, False, '' or [])",
+ "C11c": "parse_edgelist batches the parsed edges through add_edges_from (needs a nodetype returning tuples and a first edge with two members)",
+ "C11d": "parse_bipartite_edgelist applies nodetype/edgetype by column, then picks roles (needs dual=True and nodetype != edgetype)",
+ "C11e": "read_incidence_matrix reshapes a 1-D load to one row (needs exactly one edge and at least two nodes)",
+ "C11f": "a _cast helper casts column 0 with nodetype and column 1 with edgetype before the dual swap (needs dual=True and different casts)",
  "C19h": "relabelling lets an existing 'label' attribute win over the old id (needs relabelling twice or user data with that key)",
 }
 def main(ids):
